@@ -141,8 +141,8 @@ def run_shard(ctx, binp, dbg, drv, what, shard, nshards, extra_cases=()):
     cases = list(extra_cases) + vf.parse_cases(out)
     del out
     # probes that may kill the process run one by one in a process of their own
-    lonely = [c for c in cases if vf_param(c[0], "t") == "oom"]
-    cases = [c for c in cases if vf_param(c[0], "t") != "oom"]
+    lonely = [c for c in cases if vf_param(c[0], "t") in ("oom", "stack")]
+    cases = [c for c in cases if vf_param(c[0], "t") not in ("oom", "stack")]
     cases_file = os.path.join(ctx.workdir, f"cases{tag}.txt")
     vf.write_cases(cases_file, cases)
     env = {"VERIF_WORK": ctx.workdir}
